@@ -1,13 +1,12 @@
 #!/usr/bin/env python3
 """Union of the implementation line coverage reported in evidence/*.json: which executable lines of
-which dsw functions no check has executed (generator blind spots)."""
+which dsw functions NO check has executed (generator blind spots)."""
 import glob, json
-best = {}
+tot, never = {}, {}
 for f in sorted(glob.glob("/verif/evidence/*.json")):
     cov = json.load(open(f))["coverage"].get("implementation_line_coverage", {})
-    for fn, (got, tot, missing) in cov.items():
-        cur = best.get(fn)
-        if cur is None or got > cur[0]:
-            best[fn] = (got, tot, missing, f.split("/")[-1][:3])
-for fn, (got, tot, missing, who) in sorted(best.items()):
-    print("%-45s %3d/%3d  best by %s  never executed there: %s" % (fn, got, tot, who, missing if got < tot else "-"))
+    for fn, (got, total, missing) in cov.items():
+        tot[fn] = total
+        never[fn] = set(missing) if fn not in never else never[fn] & set(missing)
+for fn in sorted(tot):
+    print("%-45s %3d/%3d  never executed by any check: %s" % (fn, tot[fn] - len(never[fn]), tot[fn], sorted(never[fn]) or "-"))
